@@ -49,6 +49,10 @@ T1Contents == { Ok("k1", {"x"}, 1), Ok("k1", {"y"}, 1), Ok("k1", {"x", "y"}, 1),
 Q3DirLists == { <<"A">>, <<"A", "A">> }
 Q3Contents == { Ok("k1", {"x"}, 1), Ok("k1", {"x", "y"}, 1), Lnk("k1", {"x"}, 1), Bad("syntax"), Bad("linkdir"), Bad("dirent"), Bad("dangling") }
 T1Order    == << "a.json", "b.yaml", "c.json", "sub" >>
+\* permissions (the harness runs this universe as an unprivileged user): unreadable files and directories
+PDirLists == { <<"A">>, <<"A", "B">>, <<"B", "A">> }
+PContents == { Ok("k1", {"x"}, 1), Ok("k1", {"x", "y"}, 1), Bad("noperm"), Bad("syntax") }
+PWContents == { Ok("k1", {"x"}, 2), Ok("k1", {"y"}, 1), Bad("noperm") }
 T2DirLists == { <<"A">> }
 T2Order    == << "U.JSON", "a.json", "n.txt", "noext", "sub", "t.tmp", "x.json.bak" >>
 T2Contents == { Ok("k1", {"x"}, 1), Bad("empty"), Bad("semantic") }
